@@ -122,6 +122,48 @@ theorem chunk_stream_is_the_concatenation (cs : List Bytes) (n : Nat) :
     rw [e1, if_neg h]
     simp only [Option.map_some, e2]
 
+/-! ### every sequence of `read_exact` calls
+
+The io reader touches its stream through `read_exact` only (`fill_buffer`, `peek`, `next`, `read_exact` —
+the order facts of `Amqp.Gen.IoReadK`), so two streams that answer every sequence of `read_exact` calls
+alike are the same stream to it, and to the decoder on top of it. -/
+
+/-- a sequence of `read_exact` calls on the reader over the chunks (it stops at the first failure) -/
+def runChunks : List Bytes → List Nat → List (Option Bytes)
+  | _, [] => []
+  | cs, n :: ns =>
+    match readExact (n + 1) cs n with
+    | none => [none]
+    | some (bs, cs') => some bs :: runChunks cs' ns
+
+/-- the same calls on a stream holding the bytes in one piece -/
+def runFlat : Bytes → List Nat → List (Option Bytes)
+  | _, [] => []
+  | src, n :: ns =>
+    match Amqp.IoRead.srcExact src n with
+    | none => [none]
+    | some (bs, rest) => some bs :: runFlat rest ns
+
+/-- **chunks_are_one_stream (C01, C10, C20).** For every list of chunks and every sequence of `read_exact`
+    calls of any sizes, the reader over the chunks answers exactly as a stream holding the concatenation of
+    the chunks: the same bytes, a failure at the same call.  Together with `io_refines_slice` (the io
+    reader over a stream is the slice reader over the stream's bytes) the delivery put together from the
+    frames' payloads is decoded as the payloads' concatenation is, wherever the frames were cut. -/
+theorem chunks_are_one_stream : ∀ (ns : List Nat) (cs : List Bytes),
+    runChunks cs ns = runFlat cs.flatten ns := by
+  intro ns
+  induction ns with
+  | nil => intro cs; rfl
+  | cons n ns ih =>
+    intro cs
+    obtain ⟨i1, i2⟩ := readExact_spec (n + 1) cs n (Nat.lt_succ_self n)
+    unfold runChunks runFlat Amqp.IoRead.srcExact
+    by_cases h : cs.flatten.length < n
+    · rw [i1 h, if_pos h]
+    · obtain ⟨cs', e1, e2⟩ := i2 (by omega)
+      rw [e1, if_neg h]
+      simp only [ih cs', e2]
+
 /-! ### the byte iterator over the chunks -/
 
 theorem iterNext_spec : ∀ (cs : List Bytes),
@@ -165,5 +207,6 @@ example : (read [[1, 2, 3], [], [4, 5, 6, 7, 8], [9]] 4).copied = [1, 2, 3, 4] :
 example : (read [[1, 2, 3], [], [4, 5, 6, 7, 8], [9]] 4).chunks = [[], [], [5, 6, 7, 8], [9]] := by decide
 example : readExact 11 [[1, 2, 3], [4]] 10 = none := by decide
 example : iterAll 10 [[1], [], [2, 3]] = [1, 2, 3] := by decide
+example : runChunks [[1, 2, 3], [], [4, 5, 6, 7, 8], [9]] [1, 1, 3, 10, 1] = [some [1], some [2], some [3, 4, 5], none] := by decide
 
 end Amqp.Chunks
